@@ -65,6 +65,7 @@ def roundtrip(m, variant, tmpdir, f_replace):
     raise ValueError(variant)
 
 
+FORMULA = re.compile(r"([A-Z][a-z]?\d*)+")
 RAT = re.compile(r"^-?\d+(/\d+)?$")
 
 
@@ -212,6 +213,15 @@ def check_shipped(path):
             d1 = sbml_view(richgen.rich_dump(m1, bounds_digits=15))
             if d1 != d0:
                 fails.append(f"round trip: {richgen.diff(d0, d1)}")
+        # what the file itself holds and the writer passes on is one of the recorded findings, not a new one
+        tags = []
+        if any(len(r.metabolites) == 0 for r in m.reactions):
+            tags.append("neither reactants nor products")            # sbml-empty-reaction-invalid
+        if not any(r.objective_coefficient != 0 for r in m.reactions):
+            tags.append("listOfFluxObjectives")                      # sbml-empty-objective-invalid
+        if any(x.formula and not FORMULA.fullmatch(x.formula) for x in m.metabolites):
+            tags.append("Chemical formula must be string")           # sbml-formula-not-checked
+        fails = [("KNOWN " + f) if any(t in f for t in tags) else f for f in fails]
     return fails, "ran"
 
 
@@ -234,7 +244,6 @@ def file_vs_model(path, m):
         direction = {"maximize": "max", "minimize": "min"}.get(ao.getType(), ao.getType())
         for fo in ao.getListOfFluxObjectives():
             obj_coef[S._f_reaction(fo.getReaction())] = fo.getCoefficient()
-    boundary_species = {s.getIdAttribute() for s in model.getListOfSpecies() if s.getBoundaryCondition()}
     for r in model.getListOfReactions():
         rid = S._f_reaction(r.getIdAttribute())
         if rid not in m.reactions:
@@ -253,7 +262,7 @@ def file_vs_model(path, m):
             st[sr.getSpecies()] = st.get(sr.getSpecies(), 0) - (sr.getStoichiometry() if sr.isSetStoichiometry() else 1)
         for sr in r.getListOfProducts():
             st[sr.getSpecies()] = st.get(sr.getSpecies(), 0) + (sr.getStoichiometry() if sr.isSetStoichiometry() else 1)
-        want = {S._f_specie(k): v for k, v in st.items() if k not in boundary_species and v != 0}
+        want = {S._f_specie(k): v for k, v in st.items() if v != 0}
         got = {x.id: c for x, c in cr.metabolites.items()}
         if {k: round(v, 12) for k, v in want.items()} != {k: round(v, 12) for k, v in got.items()}:
             fails.append(f"{rid}: stoichiometry {want} in the file, {got} in the model")
@@ -409,7 +418,7 @@ def is_known(f, case):
 
 
 def is_known_shipped(name, f):
-    return False
+    return f.startswith("KNOWN ")
 
 
 if __name__ == "__main__":
